@@ -158,6 +158,9 @@ class P:
             return ('id', v)
         if (k, v) == ('op', '('):
             e = self.expr(); self.expect(')'); return e
+        if (k, v) == ('op', '[') and self.isop(']'):
+            self.next()
+            return ('id', '[]' + self.type())
         raise ParseError('unexpected %r in %r' % (v, self.text))
 
 
